@@ -152,4 +152,22 @@ def parsePlan (origin : Bytes) : List TStep → List Tok → List TVal → Optio
   | .slurp :: _, ts, acc => if slurpRemainder ts then some acc else none
   | .other :: _, _, _ => none
 
+/-! ### type and class mnemonics (defaults.go `Type.String`, `Class.String`) -/
+
+/-- `Type(n).String()`: `TypeToString[n]`, else `"TYPE" + strconv.Itoa(n)` -/
+def printType (n : Nat) : Bytes :=
+  match Gen.stringToType.find? (fun p => p.2 == n) with
+  | some p =>
+    -- only a mnemonic that the lexer, which looks tokens up in upper case, reads back as this type
+    if lookup Gen.stringToType (goUpper (ascii p.1)) == some n then ascii p.1 else ascii "TYPE" ++ itoa n
+  | none => ascii "TYPE" ++ itoa n
+
+/-- `Class(n).String()` -/
+def printClass (n : Nat) : Bytes :=
+  match Gen.stringToClass.find? (fun p => p.2 == n) with
+  | some p =>
+    -- only a mnemonic that is not also the name of a type (`ANY` is both)
+    if lookup Gen.stringToType (ascii p.1) == none then ascii p.1 else ascii "CLASS" ++ itoa n
+  | none => ascii "CLASS" ++ itoa n
+
 end Dns.TextCodec
